@@ -648,10 +648,14 @@ func (d *BasicDirectory) computeEstimatedSizeAndTotalLinks() {
 
 	mode := d.GetSizeEstimationMode()
 	if mode == SizeEstimationBlock && d.node != nil {
-		// Compute data field size from stored metadata (no serialization needed).
-		// The mode and mtime fields are extracted in NewBasicDirectoryFromNode
-		// or set via WithStat option during creation.
-		d.estimatedSize = dataFieldSerializedSize(d.mode, d.mtime)
+		// The node already carries its serialized UnixFS Data field, so take its
+		// size from those bytes (PBNode.Data: tag(1) + len_varint + bytes) rather
+		// than re-deriving it from d.mode/d.mtime: FSNode.Mode() reports 0 for a
+		// stored mode whose permission bits are 000, which made a reloaded
+		// directory under-count the field.
+		if data := d.node.Data(); data != nil {
+			d.estimatedSize = 1 + varintLen(uint64(len(data))) + len(data)
+		}
 
 		// Add link sizes using linkSerializedSize function
 		for _, l := range d.node.Links() {
